@@ -136,6 +136,8 @@ def oracle(inp):
     if acc and any(abs(a - b) > 0 for a, b in zip(rb, hp)):
       return fail("hyperparameters do not read back as set", rb, hp)
     return None
+  if kind == "multi":
+    return multi_oracle(inp, fail)
   cls, hp = inp["cls"], inp["hp"]
   from lib import gpgen
   k = gpgen.make_cov(dict(cls=cls, hp=hp, life=inp.get("life", "fresh")))   # fresh / re-assigned / overwritten in place and assigned again
@@ -200,7 +202,74 @@ def oracle(inp):
   return None
 
 
+def multi_oracle(inp, fail):
+  """multitask kernel on the running code: alpha * phi_phys(r_phys) * phi_task(r_task) for every pairing of component classes, through the
+  pairwise, cross-matrix and symmetric-matrix entry points; noise on the diagonal only; hyperparameters read back; Gram matrix PSD"""
+  import libsigopt.compute.covariance as cv
+  from libsigopt.compute.multitask_covariance import MultitaskTensorCovariance
+  pc, tc = inp["cls"]
+  hp = [float(v) for v in inp["hp"]]
+  k = MultitaskTensorCovariance(numpy.array(hp), getattr(cv, pc), getattr(cv, tc))
+  if inp.get("life") == "reassigned":   # constructed with other values, then assigned
+    k = MultitaskTensorCovariance(numpy.array([1.0] * len(hp)), getattr(cv, pc), getattr(cv, tc))
+    k.hyperparameters = numpy.array(hp)
+  if [float(v) for v in k.hyperparameters] != hp:
+    return fail("hyperparameters do not read back as set", [float(v) for v in k.hyperparameters], hp)
+  alpha, ls, lt = hp[0], hp[1:-1], hp[-1]
+  x, z = numpy.array(inp["x"], dtype=float), numpy.array(inp["z"], dtype=float)
+  def want(a, b):
+    rp = math.sqrt(sum(((a[d] - b[d]) / ls[d]) ** 2 for d in range(len(ls))))
+    rt = abs(a[-1] - b[-1]) / lt
+    return alpha * phi(pc, rp) * phi(tc, rt)
+  tol = 1e-9 * alpha
+  n = min(len(x), len(z))
+  pair = k.covariance(x[:n], z[:n])
+  for i in range(n):
+    if abs(pair[i] - want(x[i], z[i])) > tol:
+      return fail("pairwise covariance differs from alpha*phi_phys(r_phys)*phi_task(r_task)", float(pair[i]), want(x[i], z[i]))
+  cross = k.build_kernel_matrix(z, x)
+  for i in range(len(x)):
+    for j in range(len(z)):
+      if abs(cross[i, j] - want(x[i], z[j])) > tol * (1 + 1e3 * float(numpy.abs(x[i]).max() + numpy.abs(z[j]).max()) ** 2 / min(ls + [lt]) ** 2 * 1e-6):
+        return fail("cross-matrix entry differs from alpha*phi_phys*phi_task", float(cross[i, j]), want(x[i], z[j]))
+  noise = numpy.array(inp["noise"], dtype=float)
+  sym = k.build_kernel_matrix(z, noise_variance=noise)
+  for a in range(len(z)):
+    for b in range(len(z)):
+      e = want(z[a], z[b]) + (noise[a] if a == b else 0.0)
+      if abs(sym[a, b] - e) > 1e-9 * (alpha + noise[a]):
+        return fail("symmetric-matrix entry differs from alpha*phi_phys*phi_task + noise on the diagonal", float(sym[a, b]), e)
+  if abs(float(k.covariance(x[:1], x[:1])[0]) - alpha) > tol:
+    return fail("k(x,x) != alpha", float(k.covariance(x[:1], x[:1])[0]), alpha)
+  w = numpy.linalg.eigvalsh(sym)
+  if w.min() < -1e-10 * len(z) * (alpha + noise.max()):
+    return fail("Gram matrix not positive semi-definite", float(w.min()), ">= 0")
+  return None
+
+
+def gen_multi(rng):
+  dim = rng.randint(1, 5)
+  cls = [rng.choice(DIFF), rng.choice(DIFF)]
+  hp = [10.0 ** rng.uniform(-3, 3)] + [10.0 ** rng.uniform(-1, 1) for _ in range(dim)] + [10.0 ** rng.uniform(-1, 1)]
+  tasks = rng.choice([[0.1, 0.3, 1.0], [0.25, 1.0], [0.1, 0.2, 0.5, 0.7, 1.0]])
+  def pt():
+    return [rng.uniform(-1, 1) for _ in range(dim)] + [rng.choice(tasks)]
+  n, m = rng.randint(1, 6), rng.randint(2, 8)
+  x, z = [pt() for _ in range(n)], [pt() for _ in range(m)]
+  r = rng.random()
+  if r < 0.3:
+    z[1] = z[0][:-1] + [rng.choice(tasks)]      # the same physical point at (possibly) another task
+  elif r < 0.45:
+    z[1] = [rng.uniform(-1, 1) for _ in range(dim)] + [z[0][-1]]   # another physical point at the same task
+  if rng.random() < 0.3:
+    x[0] = list(z[0])
+  return dict(kind="multi", cls=cls, hp=hp, x=x, z=z, life=rng.choice(["fresh", "reassigned"]),
+              noise=[rng.choice([0.0, 1e-12, 1e-3, 1.0]) * hp[0] for _ in range(m)])
+
+
 def gen_input(rng):
+  if rng.random() < 0.15:
+    return gen_multi(rng)
   if rng.random() < 0.25:
     kind = rng.choice(["radial", "multi"])
     cls = rng.choice(KERNELS) if kind == "radial" else [rng.choice(DIFF), rng.choice(DIFF)]
